@@ -81,7 +81,10 @@ class LocalDateTime {
 
         // Avoid % operator, because it's slow on an 8-bit process and because
         // epochSeconds could be negative.
-        acetime_t seconds = epochSeconds - 86400 * days;
+        // Use unsigned arithmetic: 86400 * days overflows int32 for the
+        // earliest partial day (epochSeconds < -2147472000).
+        acetime_t seconds = (acetime_t) ((uint32_t) epochSeconds
+            - (uint32_t) 86400 * (uint32_t) days);
         ld = LocalDate::forEpochDays(days);
         lt = LocalTime::forSeconds(seconds);
       }
